@@ -7,11 +7,16 @@ package main
 //	harness -prop C17 -tier quick -seed 1 -out DIR [-shards 16] [-cases FILE]
 
 import (
+	"bytes"
+	"encoding/json"
 	"flag"
 	"fmt"
 	"math/rand"
 	"os"
+	"os/exec"
+	"path/filepath"
 	"sort"
+	"strings"
 )
 
 type driverCtx struct {
@@ -44,12 +49,19 @@ func main() {
 	shards := flag.Int("shards", 16, "number of trace shards")
 	cases := flag.String("cases", "", "TLC-generated cases (ndjson)")
 	child := flag.String("child", "", "internal: run one isolated child task")
+	noIsolate := flag.Bool("noisolate", false, "internal: run the driver in this process")
 	flag.Parse()
 
 	if *child != "" {
 		os.Exit(runChild(*child, flag.Args()))
 	}
 
+	// Drivers that decode into Go memory run in a child process: if the library corrupts memory the Go runtime
+	// kills the process (fatal error, SIGSEGV in the collector, ...), and that death is then recorded as an
+	// observation of the open run instead of taking the harness down with it.
+	if isolatedProps[*prop] && !*noIsolate {
+		os.Exit(runIsolatedDriver(*prop, *tier, *seed, *out, *shards, *cases))
+	}
 	d, ok := drivers[*prop]
 	if !ok {
 		names := make([]string, 0, len(drivers))
@@ -74,6 +86,82 @@ func main() {
 		fmt.Fprintln(os.Stderr, err)
 		os.Exit(2)
 	}
+}
+
+var isolatedProps = map[string]bool{"C01": true, "C03": true, "C04": true, "C05": true, "C10": true, "C13": true, "C19": true, "C20": true}
+
+// runIsolatedDriver runs the driver in a child. Exit status 0 of the child: nothing to add. A death whose
+// report points into the library or the runtime's memory management: the partial trace is kept (cut at the
+// last complete line of every shard), a driver_crash event is appended and meta.json is written, so that the
+// judge sees the crash. Anything else (a panic in harness code, exit 2) stays an infrastructure failure.
+func runIsolatedDriver(prop, tier string, seed int64, out string, shards int, cases string) int {
+	self, _ := os.Executable()
+	args := []string{"-noisolate", "-prop", prop, "-tier", tier, "-seed", fmt.Sprint(seed), "-out", out, "-shards", fmt.Sprint(shards)}
+	if cases != "" {
+		args = append(args, "-cases", cases)
+	}
+	cmd := exec.Command(self, args...)
+	var stderr bytes.Buffer
+	cmd.Stderr = &stderr
+	cmd.Stdout = os.Stdout
+	cmd.Env = append(os.Environ(), "GOTRACEBACK=single")
+	err := cmd.Run()
+	if err == nil {
+		return 0
+	}
+	report := stderr.String()
+	os.Stderr.WriteString(report)
+	if !libraryAttributableCrash(report) {
+		return 2
+	}
+	// keep the complete lines of every shard
+	files, _ := filepath.Glob(filepath.Join(out, "trace-*.ndjson"))
+	total := 0
+	for _, f := range files {
+		b, err := os.ReadFile(f)
+		if err != nil {
+			continue
+		}
+		if i := bytes.LastIndexByte(b, '\n'); i >= 0 {
+			b = b[:i+1]
+		} else {
+			b = nil
+		}
+		total += bytes.Count(b, []byte{'\n'})
+		os.WriteFile(f, b, 0o644)
+	}
+	if len(report) > 1500 {
+		report = report[:1500]
+	}
+	ev, _ := json.Marshal(map[string]any{"op": "driver_crash", "key": prop + "|crash", "seq": total, "detail": report})
+	f, ferr := os.OpenFile(filepath.Join(out, "trace-00.ndjson"), os.O_APPEND|os.O_CREATE|os.O_WRONLY, 0o644)
+	if ferr != nil {
+		return 2
+	}
+	f.Write(append(ev, '\n'))
+	f.Close()
+	meta, _ := json.MarshalIndent(map[string]any{"events": total + 1, "distinct_keys": 2, "realised": map[string]int{}, "samples": []any{json.RawMessage(ev)},
+		"driver_crashed": true}, "", " ")
+	os.WriteFile(filepath.Join(out, "meta.json"), meta, 0o644)
+	return 0
+}
+
+// libraryAttributableCrash: the process was killed by the Go runtime because of corrupted or misused memory
+// (or a fatal error raised from library frames), as opposed to an ordinary panic in harness code.
+func libraryAttributableCrash(report string) bool {
+	for _, marker := range []string{"fatal error: found bad pointer", "fatal error: unexpected signal", "unexpected fault address", "fatal error: fault",
+		"runtime: pointer", "found pointer to free object", "fatal error: sweep", "fatal error: heap", "fatal error: bad", "fatal error: invalid",
+		"fatal error: concurrent map", "fatal error: stack overflow", "fatal error: out of memory", "fatal error: runtime", "SIGSEGV", "SIGBUS",
+		"checkptr", "fatal error: markBits", "fatal error: workbuf", "fatal error: scanobject", "fatal error: greyobject", "span has no free"} {
+		if strings.Contains(report, marker) {
+			return true
+		}
+	}
+	// an unrecovered panic: attributable only if its first non-runtime frame is library code
+	if i := strings.Index(report, "goroutine "); i >= 0 && strings.HasPrefix(strings.TrimSpace(report), "panic:") {
+		return panicOrigin("panic(\n"+report[i:]) == "lib" && strings.Contains(report[i:], "github.com/philpearl/avro")
+	}
+	return false
 }
 
 // children: isolated tasks whose crash must not take the harness down
